@@ -379,6 +379,36 @@ def run_unit(unit):
                                 agg.violation(V("vector.sort_by.object-keys", "wrong-order", case, [repr(kv[i]) for i in want], gotv))
                             else:
                                 agg.outcomes["agree"] += 1
+    elif what == "odd-names":
+        # tables whose columns share a name or have none (join results, transposed tables, arithmetic results): every column comes
+        # back, in place, with its cells
+        from serif import Vector, Table
+        layouts = [["k", "v", "k", "v"], [None, None, None], ["k", None, "k"], ["", "", "x"], ["a", "A", "a"]]
+        keys = [2, 0, 1, 0]
+        for names in layouts:
+            for rev in (False, True):
+                for by_kind in ("external", "first-column-object", "index-of-column"):
+                    agg.evals += 1; agg.transitions += 1; agg.states += 1; agg.nontrivial += 1; agg.compared += 1
+                    case = {"column_names": names, "reverse": rev, "key": by_kind}
+                    cols = [[10 * (j + 1) + i for i in range(4)] for j in range(len(names))]
+                    cols[0] = list(keys)
+                    try:
+                        t = Table([Vector(list(c), name=nm) for c, nm in zip(cols, names)])
+                        by = Vector(list(keys)) if by_kind == "external" else t._underlying[0]
+                        res = t.sort_by(by, reverse=rev)
+                    except Exception as e:
+                        agg.violation(V("table.sort_by.odd-names", "raises-" + type(e).__name__, case, None, repr(e)[:80]))
+                        continue
+                    order = spec_sort(list(range(4)), [list(keys)], [rev], True)
+                    want = [[c[i] for i in order] for c in cols]
+                    got = [list(c._underlying) for c in res._underlying]
+                    gnames = [c._name for c in res._underlying]
+                    if got != want:
+                        agg.violation(V("table.sort_by.odd-names", "cells-not-kept-together" if len(got) == len(want) else "columns-lost", case, want, got))
+                    elif gnames != names:
+                        agg.violation(V("table.sort_by.odd-names", "column-names-changed", case, names, gnames))
+                    else:
+                        agg.outcomes["agree"] += 1
     elif what == "rename":
         # rename columns through live views so that a NAME moves to another column, then sort by that name
         from serif import Vector, Table
@@ -528,7 +558,7 @@ def check(ctx):
     units += [("hist", "intc", 3)]
     units += [("large",)]
     units += [("sort-derive-sort", k, n) for k in ("int", "str") for n in (2, 3, 4)]
-    units += [("object-keys",)]
+    units += [("object-keys",), ("odd-names",)]
     agg = core.merge_all(core.pmap(run_unit, units))
     agg.notes["bound"] = f"tables rows<={N} (1 key) / <={N2} (2 keys) / <={ctx.pick(2,3)} (3 keys); vectors len<={N}"
     agg.notes["exhaustive"] = True
